@@ -7,7 +7,7 @@ CLAIMED = {
              "normal and exceptional exits) is replayed on the real Terminal.map_fmmu for n=1..4 and the "
              "recorded run (slot, register writes, fmmu_used after every step) is validated by TLC as a "
              "behaviour of the spec. Exhaustive within the bound, which is the right level for a small "
-             "slot table whose bugs are index-arithmetic cases. Later widened: mappings of one terminal entered concurrently (one task each, the bus stub suspends at every register access), events in completion order. The logical address 0 is among the addresses used. Also two live mappings carrying the same logical address (FmmuAddr.tla tells mappings from addresses; with distinct addresses it refines Fmmu.tla).",
+             "slot table whose bugs are index-arithmetic cases. Later widened: mappings of one terminal entered concurrently (one task each, the bus stub suspends at every register access), events in completion order. The logical address 0 is among the addresses used. Also two live mappings carrying the same logical address (FmmuAddr.tla tells mappings from addresses; with distinct addresses it refines Fmmu.tla). Also mappings ending while the terminal does not answer any more (end kinds unmapfail / abortfail).",
         note="Trusts TLC, the bus stub that records register writes, and that fmmu_used is the master's "
              "table. Scripts longer than the bound and more than 3 concurrent mappings are not explored.",
         technique="TLA+ spec Fmmu + TLC exhaustive model check; TLC-enumerated scripts replayed on real "
@@ -21,7 +21,7 @@ CLAIMED = {
              "within the bound (start state, error flag, each transition taking 0..k polls, an error at any "
              "poll, each target; k=2 quick, 3 thorough); each is played by a simulated terminal against the "
              "real Terminal.to_operational on a real EtherCat object, and the recorded 0x120 writes, 0x130 "
-             "reads and outcome are validated by TLC as a behaviour of the spec. Exhaustive within the bound. Later widened: AL status words with bits above the error indicator set (0x20, 0x40, 0x8020), decoded by the trace spec itself.",
+             "reads and outcome are validated by TLC as a behaviour of the spec. Exhaustive within the bound. Later widened: AL status words with bits above the error indicator set (0x20, 0x40, 0x8020), decoded by the trace spec itself. Also terminals that clear the error flag on the acknowledge at once but report their old state for some more polls (AlDriver.tla: TAckEarly).",
         note="BOOTSTRAP starts and terminals reporting unrequested states are outside the bound; a stall is "
              "rejected. Trusts TLC and harness/simbus.py's AL register model.",
         technique="TLA+ spec AlDriver + TLC exhaustive model check; TLC-enumerated scripts replayed on real "
@@ -61,7 +61,7 @@ CLAIMED = {
              "x 4 addresses. Real scan_serial_numbers and concurrent Terminal.initialize run on a simulated "
              "bus with narrowed address ranges so that collisions are forced, varied start orders and "
              "response delays; every write of the station-address register must be in range, never written "
-             "before and never an address at which a terminal answered; TLC validates each trace. Also pre-assigned addresses shared by several terminals (probes answered with working counter 2 or more). Also whole-packet transport failures (sendto raising ENOBUFS / ENETDOWN, truncated replies) aimed at the probe of an occupied address.",
+             "before and never an address at which a terminal answered; TLC validates each trace. Also pre-assigned addresses shared by several terminals (probes answered with working counter 2 or more). Also whole-packet transport failures (sendto raising ENOBUFS / ENETDOWN, truncated replies) aimed at the probe of an occupied address. Also buses of 16-40 terminals scanned concurrently through the real send loop (more than 15 datagrams queued at once).",
         note="Schedules are sampled (seeded), not exhaustive. 'Within the configured range' is read as "
              "lo <= a <= hi, the reading under which the property text is satisfiable by randint; the "
              "half-open reading used by the mailbox lock file is recorded in DESIGN.md as an observation "
@@ -76,7 +76,7 @@ CLAIMED = {
              "variables) run the real SyncGroup.start()/run() for 4-8 cycles on a virtual-time loop and a "
              "simulated bus with scripted inputs and returned working counters (correct, off by a few, 0, and "
              ">= 256 with matching or non-matching low byte); TLC validates every trace (frames, responses, "
-             "what devices saw and set, wkc_errors). Later widened: frames lost or answered late from the second cycle on (environment action Lose): what is resent carries the current outputs and cleared counters, and wkc_errors does not move. Also the same group object started again after its task ended (SlowCycle.tla: Restart), and variables declared through PDO entries wider than the variable.",
+             "what devices saw and set, wkc_errors). Later widened: frames lost or answered late from the second cycle on (environment action Lose): what is resent carries the current outputs and cleared counters, and wkc_errors does not move. Also the same group object started again after its task ended (SlowCycle.tla: Restart), and variables declared through PDO entries wider than the variable. Also the package's terminal class that overrides allocate (AerotechBase) behind other input terminals; SlowCycle.tla describes the exchange per direction.",
         note="Expected counters are derived in the spec from the configuration, not read from the code. No "
              "lost, late or duplicated cyclic frames; cycle 1's error count is not judged.",
         technique="TLA+ spec SlowCycle + TLC exhaustive model; real SyncGroup.run on a simulated bus; TLC "
@@ -245,7 +245,7 @@ CLAIMED = {
              "specification is given their exact scaled integers; fixed-point inputs are assigned from Python through "
              "the real descriptor and the specification checks the stored bytes are the exact scaled integer. TLC "
              "executes the emitted bytecode on the eBPF machine and judges the destination bytes / the markers; the "
-             "result is read back through the real Python descriptor and must be the float nearest to raw/100000. Later widened: hash-map variable operands (incl. fixed-point ones), statements inside a temporary's block, plain assignments of every constant (conversion only), values beyond 32 bits in every vector; the precondition scales each operand only as far as its own operation needs. Also integer destinations declared with a byte order and / or narrower than 8 bytes (the precondition then follows the destination's width).",
+             "result is read back through the real Python descriptor and must be the float nearest to raw/100000. Later widened: hash-map variable operands (incl. fixed-point ones), statements inside a temporary's block, plain assignments of every constant (conversion only), values beyond 32 bits in every vector; the precondition scales each operand only as far as its own operation needs. Also integer destinations declared with a byte order and / or narrower than 8 bytes (the precondition then follows the destination's width). Also operands read as raw memory through the map's base register (`self.mx[...]`, `self.mq[...]`).",
         note="Depth-1 statements and sampled input values (boundary and fixed-seed), 8-byte operands only. Outside "
              "the precondition a case is skipped, never judged. One recorded known finding (F1: division emitted "
              "unsigned) is matched by a flag the spec computes by stepping the case's own bytecode: a DIV or MOD "
@@ -284,7 +284,7 @@ CLAIMED = {
              "real PacketVar descriptors and pB/pH/pI/pQ accesses under minimumPacketSize and explicit "
              "packetSize comparisons with Else; every packet length from 0 to guard+size+2 with fixed-seed "
              "contents and boundary field values. Every program is also loaded into the kernel and a large "
-             "sample of runs is cross-checked (machine = kernel) when bpf() is available. Later widened: both operands of a statement carry a format of their own (32 x 32 format pairs, five statement kinds).",
+             "sample of runs is cross-checked (machine = kernel) when bpf() is available. Later widened: both operands of a statement carry a format of their own (32 x 32 format pairs, five statement kinds). Also the value used in comparisons and arithmetic (`with pv + k <rel> rhs`, `other = pv + k`; Packet.tla: BranchExact), 32 formats x 6 relations.",
         note="Grid is sampled in the quick tier (about a third). Lengths between the guard and the access need are "
              "left free, as the property text allows. '=' and '@' prefixes, register-valued offsets, bit-field "
              "and multi-element formats in packets are not covered.",
@@ -303,7 +303,7 @@ CLAIMED = {
              "class; from the repaired one every bounded-preemption behaviour and random behaviours. All are replayed on "
              "the real code in one OS process per participant with gated system calls (a participant blocked in flock / "
              "lockf is recognised, no timeouts); TLC evaluates the invariants on the observed states and checks every "
-             "observed step against the repaired model (100 % on /repo). Later widened: start-up calls (connect, create_map, attach, pin, obj_get) may fail, the error handlers are steps; the design is verified with one failing call and failing calls are injected in the replay.",
+             "observed step against the repaired model (100 % on /repo). Later widened: start-up calls (connect, create_map, attach, pin, obj_get) may fail, the error handlers are steps; the design is verified with one failing call and failing calls are injected in the replay. Also the first participant vanishing - killed at every boundary between two calls the real code makes, or cancelled inside connect / attach / detach (Parallel.tla: PCancel) - followed by later joiners.",
         note="Verdict = invariants on observed states; model conformance is reported, not gated. bpf / XDP calls are "
              "recorders with kernel semantics; granularity is the system call. Removing the mutex or un-mutexing the "
              "stop block is caught through the old-protocol windows; reverting the FMMULock repair only through the "
@@ -325,7 +325,7 @@ CLAIMED = {
              "end of the second cycle (thorough: and a second cancel at every later iteration); the fast kind "
              "uses a real kernel program table with the group program really loaded; the real "
              "ProcessSyncGroup.start() spawns its child and is cancelled before its first step, while booting, "
-             "while cycling and at an exit race. TLC validates every recorded run. Cancelled after every event-loop iteration up to the end of cycle 2, x every later iteration for a second cancel, x every iteration later still for a third (three-writer configurations; thorough: all gating configurations). Also one terminal in turn going silent at the first cancel (a silent writer ending the task with a bus error is counted, not judged). Also groups without any written terminal (pure monitoring groups) in every kind, layouts enumerated by the number of written terminals.",
+             "while cycling and at an exit race. TLC validates every recorded run. Cancelled after every event-loop iteration up to the end of cycle 2, x every later iteration for a second cancel, x every iteration later still for a third (three-writer configurations; thorough: all gating configurations). Also one terminal in turn going silent at the first cancel (a silent writer ending the task with a bus error is counted, not judged). Also groups without any written terminal (pure monitoring groups) in every kind, layouts enumerated by the number of written terminals. Also cyclic frames lost from the n-th on while register datagrams are still answered (process groups stopped three time-outs deep).",
         note="Exhaustive over cancellation iterations for the listed configurations, not over configurations. The "
              "child runs a stand-in ParallelEtherCat.run (no NIC). The harness translates lookup_elem's KeyError "
              "into the OSError register_sync_group waits for (see DESIGN.md 10, observation). The FMMU "
@@ -451,7 +451,7 @@ CLAIMED = {
              "constant shifts and divisors, jump targets, pointer arithmetic) explored by TLC over ALL paths, (3) "
              "one concrete run on the eBPF machine. A kernel rejection is a violation; the model decides alone "
              "when bpf() is unavailable. The model and the kernel are calibrated in every run on deliberately "
-             "broken bytecode that both must reject. The model is Verifier2.tla (Verifier.tla plus the corrections found by X10's differential testing against the kernel); the corpus also holds C02's, C04's and X08's programs and constant shifts at the edges of the operation's width.",
+             "broken bytecode that both must reject. The model is Verifier2.tla (Verifier.tla plus the corrections found by X10's differential testing against the kernel); the corpus also holds C02's, C04's and X08's programs and constant shifts at the edges of the operation's width. Also branches that leave the program (exit inside with / Else blocks, 9 kinds of condition), helper calls inside Dict lookup blocks, in-place adds next to multi-element and packed variables, and the byte-order / raw-memory statement families of C01 and C02.",
         note="Kernel and model agreed on every program of the corpus (1 676 accepted and 9 rejected by both before "
              "the repair of F33; all accepted after). The model keeps two portable rules this kernel has relaxed "
              "and has no scalar range tracking: model-only rejections would be reported as imprecision, not judged. "
@@ -484,7 +484,7 @@ CLAIMED = {
              "update / delete / pop / iteration sequences from both sides: program-side operations are real "
              "emitted programs (update(), lookup() with Else, member access through the looked-up pointer, "
              "variable get / set) run on the kernel and on the eBPF machine, Python-side operations the real "
-             "classes on the real kernel map (or a fake kernel); TLC validates the merged history. Later widened: update flags by NAME on both sides (insert-only / modify-only judged by meaning), decimals whose float product falls below the integer in every fixed-point value pool. Also array-map variables and locals of any width and byte order assigned directly to hash variables.",
+             "classes on the real kernel map (or a fake kernel); TLC validates the merged history. Later widened: update flags by NAME on both sides (insert-only / modify-only judged by meaning), decimals whose float product falls below the integer in every fixed-point value pool. Also array-map variables and locals of any width and byte order assigned directly to hash variables. Also declarations split over base / extending / sibling classes, and program-side constants (whole numbers and decimals) assigned to fixed-point hash variables.",
         note="LRU Dicts are not compared (contents unspecified after updates). Out-of-range writes and concurrent "
              "writers are not covered.",
         technique="TLA+ spec Store (hash part) + Layout; real programs on kernel and eBPF machine; TLC trace validation",
